@@ -991,3 +991,63 @@ Proof.
   split; [vm_compute; reflexivity|]. split; [vm_compute; reflexivity|].
   split; vm_compute; reflexivity.
 Qed.
+
+(* ================================================================================================ *)
+(* 12. the history is the recorded chain of the epoch - however the epoch entered the schedule       *)
+(*     (given at construction or appended after sampling) and whatever its duration / thinning      *)
+(* ================================================================================================ *)
+
+(* driving the engine incrementally (append_epoch + sample_next_epoch after the constructed schedule
+   has been sampled) is the same as having scheduled everything at once *)
+Theorem engine_run_app : forall sqrt_o o eps1 eps2 ks store,
+  engine_run sqrt_o o ks store (eps1 ++ eps2) =
+  match engine_run sqrt_o o ks store eps1 with
+  | Some (ks1, store1) => engine_run sqrt_o o ks1 store1 eps2
+  | None => None
+  end.
+Proof.
+  intros sqrt_o o. induction eps1 as [|[e h] r IH]; intros eps2 ks store; [reflexivity|].
+  cbn [app engine_run]. destruct (engine_epoch sqrt_o o ks store e h) as [[ks' store']|]; [apply IH|reflexivity].
+Qed.
+
+(* a slow epoch appended after ANY already sampled schedule (e.g. one without a slow epoch) tunes
+   kernel i on the chain recorded for the appended epoch *)
+Theorem engine_appended_epoch : forall sqrt_o o eps1 e h ks store ks1 store1 ks' store' i diag keys st1,
+  engine_run sqrt_o o ks store eps1 = Some (ks1, store1) ->
+  engine_run sqrt_o o ks store (eps1 ++ [(e, h)]) = Some (ks', store') ->
+  e_type e = ESlow ->
+  nth_error ks1 i = Some (KMM diag keys, st1) ->
+  exists st', nth_error ks' i = Some (KMM diag keys, st') /\
+    tune sqrt_o o diag keys true st1 (Some (restrict keys h)) = Some st' /\
+    tune_mm o diag keys (restrict keys h) = Some (imm st').
+Proof.
+  intros sqrt_o o eps1 e h ks store ks1 store1 ks' store' i diag keys st1 H1 H He Hn.
+  rewrite engine_run_app, H1 in H. cbn [engine_run] in H.
+  destruct (engine_epoch sqrt_o o ks1 store1 e h) as [[ks2 store2]|] eqn:Ee; [|discriminate].
+  injection H as <- <-.
+  eapply engine_slow_epoch_own_history; eassumption.
+Qed.
+
+(* duration and thinning of the epoch's config play no role: the history is the recorded chain [h]
+   (for a thinned epoch: the thinned samples the engine stored) *)
+Theorem engine_thinned_history : forall sqrt_o o ks store t d th d' th' h,
+  option_map fst (engine_epoch sqrt_o o ks store (mkE t d th) h) =
+  option_map fst (engine_epoch sqrt_o o ks store (mkE t d' th') h).
+Proof.
+  intros sqrt_o o ks store t d th d' th' h. unfold engine_epoch, tune_kernels. cbn [e_type].
+  rewrite !current_chain_app.
+  destruct (is_adaptation t); [|reflexivity].
+  destruct (existsb _ ks);
+    destruct (seq_tune sqrt_o o (is_slow t) _ ks); reflexivity.
+Qed.
+
+Example ex_engine_appended_thinned : exists ks1 store1 ks' store' st',
+  engine_run (fun _ => 1) Sorted ex_kseq [] [(mkE EFast 2 1, ex_h 1 1)] = Some (ks1, store1) /\
+  engine_run (fun _ => 1) Sorted ex_kseq [] ([(mkE EFast 2 1, ex_h 1 1)] ++ [(mkE ESlow 4 2, ex_h 6 8)]) = Some (ks', store') /\
+  nth_error ks' 3 = Some (KMM false [("z"%string, 1%nat)], st') /\
+  imm st' = Dense [[Qred (18 + reg)]].
+Proof.
+  eexists. eexists. eexists. eexists. eexists.
+  split; [vm_compute; reflexivity|]. split; [vm_compute; reflexivity|].
+  split; vm_compute; reflexivity.
+Qed.
